@@ -108,6 +108,7 @@ def _stratum(name, r):
     """-> model spec of the named stratum; r only picks values inside the stratum."""
     T = []
     verbose = False
+    reload = None
     if name == "inline_only":
         for i, sc in enumerate(["scalar", "zero", "small", "eq256", "small", "scalar"]):
             T.append(_t(r, f"w{i}", sc))
@@ -172,6 +173,12 @@ def _stratum(name, r):
     elif name == "uninit_subgraph":
         wh = r.choice(["then", "else", "loop"])
         T = [_t(r, "w0", "medium"), _t(r, "u0", "medium", dtype="FLOAT", kind="uninit", where=wh), _t(r, "w1", "small")]
+    elif name in ("reload_same_name", "reload_other_name", "reload_same_dir"):
+        # re-save of a model that was loaded from an earlier export: every large initializer is already external; with
+        # small_mem the in-memory ones all stay below the externalisation threshold, otherwise one large in-memory tensor is added
+        T = [_t(r, "w0", "medium"), _t(r, "w1", "small"), _t(r, "w2", r.choice(["big", "medium"]), dtype="FLOAT"),
+             _t(r, "w3", "just_above"), _t(r, "w4", "scalar"), _t(r, "t0", "medium", dtype="FLOAT", where="then")]
+        reload = name[len("reload_"):]
     elif name == "torch":
         T = [_t(r, "p0", "medium", dtype="FLOAT", kind="torch"), _t(r, "p1", "small", dtype="INT64", kind="torch"),
              _t(r, "p2", "just_above", dtype=r.choice(["FLOAT16", "BFLOAT16", "DOUBLE"]), kind="torch"),
@@ -179,13 +186,17 @@ def _stratum(name, r):
     else:
         raise ValueError(name)
     return {"stratum": name, "tensors": T, "verbose": verbose, "path_style": r.choice(PATH_STYLES),
-            "preexisting": r.random() < 0.35,
+            "preexisting": r.random() < 0.35 and reload != "same_dir", **({"reload": reload} if reload else {}),
             # the destination's extension selects the serialization format (ir.save / ir.load infer it from the path)
             "ext": r.choice([".onnx", ".onnx", ".onnx", ".textproto", ".json"])}
 
 
 STRATA = ["inline_only", "threshold", "big_one", "big_two", "external_other_file", "subgraph", "verbose", "exotic",
-          "uninit_main", "uninit_main_verbose", "uninit_subgraph", "uninit_unconsumed", "torch", "tied"]
+          "uninit_main", "uninit_main_verbose", "uninit_subgraph", "uninit_unconsumed", "torch", "tied",
+          "reload_same_name", "reload_other_name"]
+# "reload_same_dir" (saving over the very data file that backs the model's own external tensors) is deliberately NOT generated:
+# onnx_ir invalidates tensors whose backing file is overwritten, and the property sentence does not say what "still backed by
+# their original data" means when the destination IS the original data (see ASSUMPTIONS)
 EXTRA_STRATA = ["string_large"]
 
 
@@ -259,8 +270,20 @@ class _Run:
             out = os.path.join(self.dir, "out", "a", "b")
         else:
             out = os.path.join(self.dir, "out")
-        os.makedirs(out)
         self.fname = "model" + ms.get("ext", ".onnx")
+        if ms.get("reload"):
+            # the model under test is one that was LOADED from an earlier export (written with onnx_ir directly, not with the
+            # function under test): its large initializers are ExternalTensors located in '<name>.data' next to that export
+            import onnx_ir as ir
+
+            first = os.path.join(self.dir, "first")
+            os.makedirs(first)
+            name1 = self.fname if ms["reload"] in ("same_name", "same_dir") else "earlier" + ms.get("ext", ".onnx")
+            ir.save(self.model, os.path.join(first, name1), external_data=name1 + ".data")
+            self.model = ir.load(os.path.join(first, name1))
+            if ms["reload"] == "same_dir":
+                out = first
+        os.makedirs(out, exist_ok=True)
         self.abs_path = os.path.join(out, self.fname)
         if style == "pathlib":
             import pathlib
